@@ -5,6 +5,8 @@ CONSTANTS
   Values <- MCValues
   KindOf <- MCKindOf
   HSlots = {"s1", "s2"}
+  Doors = {}
+  BDValues = {}
   Depth = 5
   Emit = TRUE
   CrossKind = FALSE
